@@ -1,4 +1,4 @@
-import UsualProofs.C01.Step
+import UsualProofs.C01.Unlink
 /-!
 # C01 — talloc: an object lives exactly while some parent or reference holds it
 
@@ -71,5 +71,112 @@ released and the live child keeps a parent id that is gone (use after free in C)
 theorem wf_step_old_counterexample :
     wfOK (runOps Cfg.old {} [.alloc none 10 true false, .alloc (some 0) 10 false false,
       .setDtor 1 (.refuse 1), .free 0]) = false := by decide
+
+/-! ## held ⇔ live -/
+
+/-- **live_iff_held**: in a well-formed state, whatever a live context lists as child or a live
+TRef chunk targets is live (no holder edge dangles), and every live object is either top level
+(held by the NULL context) or listed by its live parent.  `HeldBy` / `TopLevel` are defined in
+UsualProofs/C01/Held.lean. -/
+theorem live_iff_held (s : State) (hwf : wfOK s = true) (x : Nat) :
+    (HeldBy s x → s.live x = true) ∧ (s.live x = true → HeldBy s x ∨ TopLevel s x) :=
+  ⟨held_live ((wfOK_iff s).1 hwf) x, live_held ((wfOK_iff s).1 hwf) x⟩
+
+example :
+    let s := runOps Cfg.fixed {} [.alloc none 8 false false, .alloc (some 0) 9 false false]
+    s.live 1 = true ∧ (∃ pb, s.get 0 = some pb ∧ 1 ∈ pb.children) := by
+  refine ⟨by decide, _, rfl, by decide⟩
+
+/-- **unlink_nonlast_keeps** (a referencing context lets go): the TRef chunk of that context is
+released; the object stays live with the same primary parent, the same children, and one
+reference less. -/
+theorem unlink_nonlast_keeps (s : State) (rk : Nat → Nat) (hwf : wfOK s = true) (hrk : Ranked rk s)
+    (ctx : Option Id) (o : Nat) (ob : Obj) (hob : s.get o = some ob) (hnp : ob.parent ≠ orNull s ctx)
+    (r : Nat) (hr : findRefByParent s (orNull s ctx) ob.refs = some r) :
+    (step Cfg.fixed s (.unlink ctx o)).2 = 0 ∧
+    ∃ ob', (step Cfg.fixed s (.unlink ctx o)).1.get o = some ob' ∧ ob'.parent = ob.parent ∧
+      ob'.refs = ob.refs.erase r ∧ ob'.children = ob.children ∧ ob'.kind = ob.kind ∧
+      (step Cfg.fixed s (.unlink ctx o)).1.get r = none :=
+  unlink_ref_keeps Cfg.fixed ((wfOK_iff s).1 hwf) hrk ctx o ob hob hnp r hr
+
+/-- **unlink_nonlast_keeps** (the primary parent lets go while references exist): the object
+stays live, keeps its children, becomes the LAST child of the context of its FIRST reference,
+and that TRef chunk is released. -/
+theorem unlink_primary_keeps (s : State) (rk : Nat → Nat) (hwf : wfOK s = true) (hrk : Ranked rk s)
+    (ctx : Option Id) (o : Nat) (ob : Obj) (hob : s.get o = some ob) (hprim : ob.parent = orNull s ctx)
+    (r : Nat) (rest : List Id) (hrefs : ob.refs = r :: rest) :
+    ∃ rb, s.get r = some rb ∧ (step Cfg.fixed s (.unlink ctx o)).2 = 0 ∧
+    ∃ ob', (step Cfg.fixed s (.unlink ctx o)).1.get o = some ob' ∧ ob'.parent = rb.parent ∧
+      ob'.refs = rest ∧ ob'.children = ob.children ∧ ob'.kind = ob.kind ∧
+      (step Cfg.fixed s (.unlink ctx o)).1.get r = none ∧
+      (∀ q, rb.parent = some q → ∃ qb', (step Cfg.fixed s (.unlink ctx o)).1.get q = some qb' ∧
+        qb'.children.getLast? = some o) :=
+  unlink_primary_promotes Cfg.fixed ((wfOK_iff s).1 hwf) hrk ctx o ob hob hprim r rest hrefs
+
+example :
+    let s := runOps Cfg.fixed {} [.alloc none 0 false false, .alloc (some 0) 0 false false,
+      .alloc (some 0) 0 false false, .alloc (some 1) 9 false false, .reference (some 2) 3 false,
+      .unlink (some 1) 3]
+    (s.get 3).map (·.parent) = some (some 2) ∧ (s.get 3).map (·.refs) = some [] := by decide
+
+/-- **unlink_last_releases** (`_partial`: the object itself): when the last link goes — no
+reference, `ctx` is the primary parent — and the destructor accepts, the call answers 0, the
+object is released and the heap is well formed again (so every descendant is either released
+or attached to a live context).
+
+Full statement `unlink_last_releases`: additionally, every descendant without another holder
+and with an accepting destructor is released, and a descendant with another reference ends up
+child of the (first) referencing context.  Missing: the characterisation of the whole released
+set; the per-object facts follow from `wf_step_partial` (nothing dangles), `unlink_primary_keeps`
+(promotion) and the correspondence run. -/
+theorem unlink_last_releases_partial (s : State) (rk : Nat → Nat) (hwf : wfOK s = true) (hrk : Ranked rk s)
+    (ctx : Option Id) (o : Nat) (ob : Obj) (hob : s.get o = some ob) (hk : ob.kind = .plain)
+    (hnull : s.nullCtx ≠ some o) (hprim : ob.parent = orNull s ctx) (hrefs : ob.refs = [])
+    (hacc : (dtorStep ob.dtor).1 = true)
+    (hoof : (step Cfg.fixed s (.unlink ctx o)).1.oof = false)
+    (hstuck : (step Cfg.fixed s (.unlink ctx o)).1.stuck = false) :
+    (step Cfg.fixed s (.unlink ctx o)).2 = 0 ∧ (step Cfg.fixed s (.unlink ctx o)).1.get o = none ∧
+    wfOK (step Cfg.fixed s (.unlink ctx o)).1 = true := by
+  obtain ⟨h1, h2, h3⟩ := unlink_last_releases Cfg.fixed rfl ((wfOK_iff s).1 hwf) hrk ctx o ob hob hk hnull
+    hprim hrefs hacc hoof hstuck
+  exact ⟨h1, h2, (wfOK_iff _).2 h3⟩
+
+example :
+    let s := runOps Cfg.fixed {} [.alloc none 0 false false, .alloc (some 0) 9 false false,
+      .alloc (some 1) 9 false false, .setDtor 2 (.refuse 1), .unlink (some 0) 1]
+    s.live 1 = false ∧ s.live 2 = true ∧ (s.get 2).map (·.parent) = some (some 0) := by decide
+
+/-! ## a failed operation changes nothing -/
+
+/-- **failed_op_unchanged**: an operation that answers -1 / NULL — `talloc_free` of a referenced
+top-level object or with a refusing destructor, `talloc_steal` / `talloc_realloc` of a
+referenced object, a cx mismatch in `talloc_reparent`, `talloc_unlink` from a context that does
+not hold the object, an allocation that is too large, refused by a memory limit or failed by the
+allocator — leaves the heap and the null context exactly as they were, up to the destructor
+scripts (a refusal is counted) and the memlimit counters (treated exactly by C19).
+`absState` is defined in lean/Usual/C01/Observe.lean. -/
+theorem failed_op_unchanged (s : State) (op : Op) (rk : Nat → Nat) (hwf : wfOK s = true) (hrk : Ranked rk s)
+    (h : (step Cfg.fixed s op).2 = -1) : absState (step Cfg.fixed s op).1 = absState s :=
+  absState_eq_of_absEq (step_fail_absEq Cfg.fixed rk s ((wfOK_iff s).1 hwf).toWFp hrk op h)
+
+example :
+    let s := runOps Cfg.fixed {} [.alloc none 8 false false, .alloc none 8 false false, .reference (some 1) 0 false]
+    (step Cfg.fixed s (.free 0)).2 = -1 ∧ (step Cfg.fixed s (.steal (some 1) 0)).2 = -1 ∧
+    (step Cfg.fixed s (.realloc none 0 100 false)).2 = -1 := by decide
+
+/-! ## everything is returned -/
+
+/-- **all_roots_freed_balanced**: in a well-formed state with acyclic holder graph every live
+chunk hangs below a top-level object; hence once no top-level object is left, no chunk is
+left: all memory obtained from either allocation context has been returned. -/
+theorem all_roots_freed_balanced (s : State) (rk : Nat → Nat) (hwf : wfOK s = true) (hrk : Ranked rk s)
+    (hroots : ∀ x, ¬ TopLevel s x) : (∀ x : Nat, s.get x = none) ∧ ∀ cx, liveRegions s cx = 0 := by
+  have h := no_roots_no_objects ((wfOK_iff s).1 hwf) hrk hroots
+  exact ⟨h, liveRegions_zero h⟩
+
+example :
+    let s := runOps Cfg.fixed {} [.alloc none 8 true false, .alloc (some 0) 8 false false,
+      .alloc (some 1) 8 false false, .reference (some 0) 2 false, .free 0]
+    liveRegions s 0 = 0 ∧ liveRegions s 1 = 0 := by decide
 
 end UsualProps.C01
